@@ -173,6 +173,149 @@ def grid_block(R, rng, fam, valid):
     R.append("c04.block %d %d %s" % (nr, nc, " ".join(mat_tok(rmat(rng, d[0], d[1], fam)) for row in dims for d in row)))
 
 
+
+STRUCT_KINDS = ["identity", "unit_lower", "unit_upper", "unit_diag", "diag", "perm", "id_one_off", "zero", "zero_row", "zero_col",
+                "corr"]
+
+
+def struct_mat(rng, r, c, kind, fam):
+    """structured operands of the products: shapes r x c (square kinds need r == c, else a generic matrix with the
+    structure on its leading square block)"""
+    M = rmat(rng, r, c, fam)
+    nz = lambda: next(x for x in iter(lambda: entry(rng, fam), None) if x != 0.0)
+    k = min(r, c)
+    if kind == "zero":
+        return Rows([[0.0] * c for _ in range(r)], c)
+    if kind == "zero_row":
+        M[rng.randrange(r)] = [0.0] * c; return M
+    if kind == "zero_col":
+        j = rng.randrange(c)
+        for row in M:
+            row[j] = 0.0
+        return M
+    for i in range(r):
+        for j in range(c):
+            if kind == "identity":
+                M[i][j] = 1.0 if i == j else 0.0
+            elif kind == "unit_lower":
+                M[i][j] = 1.0 if i == j else (nz() if j < i else 0.0)
+            elif kind == "unit_upper":
+                M[i][j] = 1.0 if i == j else (nz() if j > i else 0.0)
+            elif kind == "unit_diag":
+                M[i][j] = 1.0 if i == j else nz()
+            elif kind == "diag":
+                M[i][j] = nz() if i == j else 0.0
+            elif kind == "id_one_off":
+                M[i][j] = 1.0 if i == j else 0.0
+            elif kind == "corr":      # correlation type: unit diagonal, symmetric off-diagonals in (-1,1)
+                M[i][j] = 1.0 if i == j else (M[j][i] if j < i and j < r and i < c else rng.choice([0.5, -0.25, 0.125, 0.75, -0.5]))
+    if kind == "corr":
+        for i in range(r):
+            for j in range(c):
+                if j < i and i < c and j < r:
+                    M[i][j] = M[j][i]
+    if kind == "id_one_off" and max(r, c) >= 2:
+        while True:
+            i, j = rng.randrange(r), rng.randrange(c)
+            if i != j:
+                M[i][j] = nz(); break
+    if kind == "perm":
+        p = list(range(k)); rng.shuffle(p)
+        if k >= 2 and p == sorted(p):
+            p[0], p[1] = p[1], p[0]
+        for i in range(r):
+            for j in range(c):
+                M[i][j] = 1.0 if (i < k and p[i] == j) else 0.0
+    return M
+
+
+def struct_block(R, rng, thorough):
+    """products (all spellings, laws), matrix-vector, vector-matrix and outer products on structured operands"""
+    fams = ("dy", "mx")
+    cnt = 0
+    for n in range(1, (5 if thorough else 4) + 1):
+        for kind in STRUCT_KINDS:
+            for m in sorted({1, n + 1} if not thorough else {1, 2, n, n + 1}):
+                fam = fams[cnt % 2]; cnt += 1
+                S = struct_mat(rng, n, n, kind, fam)
+                G = rmat(rng, m, n, fam); H = rmat(rng, n, m, fam)
+                S2 = struct_mat(rng, n, n, rng.choice(STRUCT_KINDS), fam)
+                pairs = [(G, S), (S, H), (S, S2), (S2, S)]
+                if kind in ("zero", "zero_row", "zero_col", "unit_diag", "unit_lower", "unit_upper", "diag"):   # non-square too
+                    pairs.append((G, struct_mat(rng, n, m, kind, fam)))
+                    pairs.append((struct_mat(rng, m, n, kind, fam), H))
+                for (A, B) in pairs:
+                    for sp in "mo":
+                        R.append("c04.mul %s %s %s" % (sp, mat_tok(A), mat_tok(B)))
+                    R.append("c04.laws %s %s" % (mat_tok(A), mat_tok(B)))
+            # vectors: zero, unit, ones against the structured matrix and against generic ones
+            fam = fams[cnt % 2]
+            S = struct_mat(rng, n, n, kind, fam); m = rng.randint(1, 4)
+            G = rmat(rng, m, n, fam); H = rmat(rng, n, m, fam)
+            e = rng.randrange(n)
+            for v in ([0.0] * n, [1.0 if i == e else 0.0 for i in range(n)], [1.0] * n):
+                for sp in "mo":
+                    R.append("c04.matvec %s %s %s" % (sp, mat_tok(S), lst(v)))
+                R.append("c04.vecmat %s %s" % (lst(v), mat_tok(S)))
+                R.append("c04.matvec m %s %s" % (mat_tok(G), lst(v)))
+                R.append("c04.vecmat %s %s" % (lst(v), mat_tok(H)))
+                R.append("c04.outer %s %s" % (lst(v), lst(rvec(rng, m, fam))))
+                R.append("c04.outer %s %s" % (lst(rvec(rng, m, fam)), lst(v)))
+                R.append("c04.dot m %s %s" % (lst(v), lst(rvec(rng, n, fam))))
+    # scalar spellings on structured matrices (s*M, M*s, Product(s))
+    for kind in STRUCT_KINDS:
+        S = struct_mat(rng, 3, 3, kind, "dy")
+        for sp in "mof":
+            R.append("c04.smul %s %s %s" % (sp, mat_tok(S), hx(rng.choice([0.0, 1.0, -1.0, 2.5]))))
+
+
+def pred_block(R):
+    """deterministic: matrices that meet the definition of Symmetric / Antisymmetric / Diagonal except for exactly one
+    entry (each position class), traceless non-zero diagonals with exactly antisymmetric off-diagonals, non-square shapes"""
+    out = []
+    def emit(M):
+        out.append("c04.preds " + mat_tok(Rows([[float(x) for x in r] for r in M], len(M[0]))))
+    import copy
+    for n in (1, 2, 3, 4):
+        val = lambda i, j: float(1 + ((3 * i + 5 * j) % 7))
+        sym = [[val(min(i, j), max(i, j)) for j in range(n)] for i in range(n)]
+        sym0 = [[0.0 if i == j else sym[i][j] for j in range(n)] for i in range(n)]          # symmetric, zero diagonal
+        asym = [[0.0 if i == j else (val(i, j) if i < j else -val(j, i)) for j in range(n)] for i in range(n)]
+        dg = [[val(i, i) if i == j else 0.0 for j in range(n)] for i in range(n)]
+        zero = [[0.0] * n for _ in range(n)]
+        bases = [sym, sym0, asym, dg, zero, [[1.0 if i == j else 0.0 for j in range(n)] for i in range(n)]]
+        for Bm in bases:
+            emit(Bm)
+            for i in range(n):
+                for j in range(n):
+                    for delta in (1.0, -2.0, 2.0 ** -40):
+                        M = copy.deepcopy(Bm); M[i][j] = M[i][j] + delta; emit(M)
+                    M = copy.deepcopy(Bm); M[i][j] = -M[i][j]
+                    if M != Bm:
+                        emit(M)
+        # antisymmetric off-diagonals with a non-zero diagonal: traceless and not traceless
+        if n >= 2:
+            for d in ([-1.0, 1.0] + [0.0] * (n - 2), [2.0, -1.0, -1.0, 0.0][:n] if n >= 3 else [0.5, -0.5], [1.0] * n,
+                      [0.0] * (n - 1) + [3.0], [1e-300] + [0.0] * (n - 2) + [-1e-300]):
+                M = copy.deepcopy(asym)
+                for i in range(n):
+                    M[i][i] = d[i]
+                emit(M)
+                M2 = copy.deepcopy(zero)                 # zero off-diagonals as well
+                for i in range(n):
+                    M2[i][i] = d[i]
+                emit(M2)
+            for x in (1.0, 2.5, -3.0):
+                if n == 2:
+                    emit([[-1.0, x], [-x, 1.0]]); emit([[1.0, x], [-x, -1.0]]); emit([[0.0, x], [-x, 0.0]]); emit([[0.0, x], [x, 0.0]])
+        # symmetric / antisymmetric only in the upper-left block of a non-square matrix
+        emit([r + [0.0] for r in sym]); emit(asym + [[0.0] * n]); emit(dg + [[0.0] * n]); emit([r + [0.0] for r in zero])
+    seen = set()
+    for r in out:
+        if r not in seen:
+            seen.add(r); R.append(r)
+
+
 def guard_block(R, rng, m, n, fam):
     """class A: conformable and non-conformable partners of an m x n matrix"""
     A = rmat(rng, m, n, fam); a = mat_tok(A)
@@ -275,6 +418,8 @@ def generate(tier, seed, ctx):
     for _ in range(1000 if thorough else 200):
         R.append(gen_mhist(rng, rng.randint(3, 12)))
     R += triple_corpus()
+    struct_block(R, rng, thorough)
+    pred_block(R)
     # the shortest stale-state histories as a fixed corpus
     R.append("c04.vhist 2 0x1.8p+1 0x1p+2 3 N - 2 0x1.8p+1 0x0p+0 N")
     R.append("c04.vhist 2 0x1.8p+1 0x1p+2 3 N + 2 0x1.8p+1 0x1p+2 N")
